@@ -287,31 +287,65 @@ func runC17(w *World, r *Report) {
 		}
 	}
 
-	// a list written inside a loop over addresses is built from what was read for THAT address in this iteration
-	r.rule("list-update-is-iteration-local", "a per-address list written inside a loop does not depend on a value carried over from an earlier iteration of that loop (another address's list)", 1)
-	nLoopSets := 0
+	listUpdateIterationLocal(w, r, "list-update-is-iteration-local")
+
+	// the list of an address goes away only when it is empty
+	r.rule("index-key-deleted-only-when-empty", "a per-address list (a key built by encodeAddressKey) is deleted from the cache only behind the test that the list just read under that key is empty (len == 0): a shortcut that takes a short list for 'only the hash being removed' drops whatever else the list holds", 2)
+	nDel = 0
 	for _, fn := range fns {
 		instrsOf(fn, func(in ssa.Instruction) {
 			c, ok := in.(ssa.CallInstruction)
-			if !ok || memCall(c) != "Set" {
+			if !ok || memCall(c) != "Delete" {
 				return
 			}
-			sb := in.Block()
-			if !onCycleWith(sb, sb) {
-				return
-			}
-			nLoopSets++
 			_, a := callArgs(c)
-			if len(a) < 2 {
+			if len(a) < 1 {
 				return
 			}
-			carried := loopCarried(a[1], sb, map[ssa.Value]bool{}, 0)
-			r.check(carried == "", "list-update-is-iteration-local", shortFn(fn)+"/mem.Set("+pathOf(a[0])+")", lineOf(w, c),
-				"the list stored for an address derives from this iteration's read of that address (or is fresh)", carried)
+			isAddrKey := false
+			for _, o := range origins(a[0]) {
+				if kc, ok := o.(*ssa.Call); ok && strings.HasSuffix(calleeName(kc), ".encodeAddressKey") {
+					isAddrKey = true
+				}
+			}
+			if !isAddrKey {
+				return
+			}
+			nDel++
+			// the lists read under this key in this function
+			var lists []string
+			instrsOf(in.Parent(), func(in2 ssa.Instruction) {
+				if g, ok := in2.(ssa.CallInstruction); ok && memCall(g) == "Get" {
+					_, ga := callArgs(g)
+					if len(ga) > 0 && pathOf(ga[0]) == pathOf(a[0]) {
+						if rv := resultAt(g, 0); rv != nil {
+							lists = append(lists, pathOf(rv))
+						}
+					}
+				}
+			})
+			var empty []Edge
+			for _, b := range in.Parent().Blocks {
+				for i := range b.Succs {
+					e := Edge{b, i}
+					for _, pf := range pfactsOnEdge(e) {
+						if pf.kind != kLenMax0 {
+							continue
+						}
+						for _, l := range lists {
+							if pf.path == l {
+								empty = append(empty, e)
+							}
+						}
+					}
+				}
+			}
+			r.check(len(empty) > 0 && behind(in, empty), "index-key-deleted-only-when-empty", shortFn(in.Parent())+"/mem.Delete("+pathOf(a[0])+")", lineOf(w, c),
+				"the list is deleted only when the list read under the same key is empty", "the deletion of the list is not behind len(list) == 0 for the list read under that key: entries of other transactions of this address go with it")
 		})
 	}
-	if nLoopSets == 0 {
-		r.ok("list-update-is-iteration-local", "none", "-", "no list is written inside a loop")
+	if nDel == 0 {
+		r.ok("index-key-deleted-only-when-empty", "none", "-", "no per-address list is ever deleted")
 	}
 
 	// once the transaction entry is written, every address of the transaction gets its list entry unless the cache itself
@@ -611,4 +645,49 @@ func loopCarried(v ssa.Value, at *ssa.BasicBlock, seen map[ssa.Value]bool, d int
 func isByte(t types.Type) bool {
 	b, ok := t.Underlying().(*types.Basic)
 	return ok && b.Kind() == types.Uint8
+}
+
+// bigMemCall: the bigcache operation behind a call on a `.mem` field ("" otherwise).
+func bigMemCall(c ssa.CallInstruction) string {
+	n := calleeName(c)
+	pre := "(*" + bigPkg + ".BigCache)."
+	if strings.HasPrefix(n, pre) {
+		recv, _ := callArgs(c)
+		if recv != nil && strings.HasSuffix(pathOf(recv), ".mem") {
+			return strings.TrimPrefix(n, pre)
+		}
+	}
+	return ""
+}
+
+// listUpdateIterationLocal: what one address is told about must not come from another address's list (shared by C16: the
+// waiting list of a caller holds only the caller's transactions; and C17).
+func listUpdateIterationLocal(w *World, r *Report, rule string) {
+	// a list written inside a loop over addresses is built from what was read for THAT address in this iteration
+	r.rule(rule, "a per-address list written inside a loop does not depend on a value carried over from an earlier iteration of that loop (another address's list)", 1)
+	nLoopSets := 0
+	for _, fn := range w.RepoFuncs("cache") {
+		instrsOf(fn, func(in ssa.Instruction) {
+			c, ok := in.(ssa.CallInstruction)
+			if !ok || bigMemCall(c) != "Set" {
+				return
+			}
+			sb := in.Block()
+			if !onCycleWith(sb, sb) {
+				return
+			}
+			nLoopSets++
+			_, a := callArgs(c)
+			if len(a) < 2 {
+				return
+			}
+			carried := loopCarried(a[1], sb, map[ssa.Value]bool{}, 0)
+			r.check(carried == "", rule, shortFn(fn)+"/mem.Set("+pathOf(a[0])+")", lineOf(w, c),
+				"the list stored for an address derives from this iteration's read of that address (or is fresh)", carried)
+		})
+	}
+	if nLoopSets == 0 {
+		r.ok(rule, "none", "-", "no list is written inside a loop")
+	}
+
 }
